@@ -31,6 +31,19 @@ type Entry struct {
 	Password   string `json:"password"`
 	Fields     int    `json:"fields"` // 2 or 3
 	MountPoint string `json:"mountpoint,omitempty"`
+	// Cut >= 0 (with HasCut): the password column holds only the first Cut digits of the digest
+	// (0: an empty column, the usual way of disabling an account by hand): such a line matches
+	// no password at all
+	HasCut bool `json:"has_cut,omitempty"`
+	Cut    int  `json:"cut,omitempty"`
+}
+
+func (e Entry) column() string {
+	h := hexsha(e.Password)
+	if e.HasCut && e.Cut < len(h) {
+		return h[:e.Cut]
+	}
+	return h
 }
 
 type Cand struct {
@@ -49,9 +62,9 @@ func fileText(es []Entry) string {
 	var b strings.Builder
 	for _, e := range es {
 		if e.Fields == 3 {
-			fmt.Fprintf(&b, "%s:%s:%s\n", e.User, hexsha(e.Password), e.MountPoint)
+			fmt.Fprintf(&b, "%s:%s:%s\n", e.User, e.column(), e.MountPoint)
 		} else {
-			fmt.Fprintf(&b, "%s:%s\n", e.User, hexsha(e.Password))
+			fmt.Fprintf(&b, "%s:%s\n", e.User, e.column())
 		}
 	}
 	return b.String()
@@ -94,7 +107,7 @@ func runFile(c FileCase, dir string) (msg string, nt bool) {
 	for _, cand := range candidates(c) {
 		var row *Entry
 		for i := range c.Entries {
-			if c.Entries[i].User == cand.User && c.Entries[i].Password == cand.Password {
+			if c.Entries[i].User == cand.User && c.Entries[i].Password == cand.Password && !c.Entries[i].HasCut {
 				row = &c.Entries[i]
 			}
 		}
@@ -175,6 +188,9 @@ func TestFile(t *testing.T) {
 			if rapid.IntRange(0, 7).Draw(t, "hexToken") == 0 {
 				// a password that happens to look like a digest: 64 lower-case hex characters
 				e.Password = hexsha("token-" + u)
+			}
+			if rapid.IntRange(0, 5).Draw(t, "cut") == 0 {
+				e.HasCut, e.Cut = true, rapid.SampledFrom([]int{0, 0, 1, 8, 32, 63}).Draw(t, "cutAt")
 			}
 			if rapid.Bool().Draw(t, "three") {
 				e.Fields = 3
